@@ -12,7 +12,7 @@ import (
 // genC08: construction is all-or-nothing.
 func genC08(c *lp.Ctx) {
 	// 1. order violations at every index class
-	n := c.Pick(300, 3000)
+	n := c.Pick(300, 1000)
 	for it := 0; it < n; it++ {
 		ks := gen.Any(c.Rng, 40)
 		keys := append([]string{}, ks.Keys...)
